@@ -22,6 +22,7 @@ FORMS = {
     'def': ('def x(): pass', True), 'class': ('class x: pass', True), 'walrus': ('print((x := 1))', True),
     'tuple': ('(x, _o) = 1, 2', True), 'match': ('match p:\n    case x: pass', True), 'match-as': ('match p:\n    case str() as x: pass', True),
     'match-star': ('match p:\n    case [_o, *x]: pass', True), 'match-rest': ('match p:\n    case {1: _o, **x}: pass', True),
+    'type-alias': ('type x = int', True),
     'try-star': ('try: pass\nexcept* E as x: pass', False), 'comprehension': ('print([0 for _o in [] if (x := 1)])', True),
 }
 
@@ -222,7 +223,7 @@ def scopes_against_symtable(run):
 
 
 @harness(['C05'], 'supp.nast.extract_scope + Flow.names_at [every statement that makes a name local, against the compiler\'s symbol tables]',
-         bounded='modules  [x = 0]? ; use(x) ; S1 ; use(x)  with S1 a chain of 1-2 nested def / class scopes where one level holds one of 20 '
+         bounded='modules  [x = 0]? ; use(x) ; S1 ; use(x)  with S1 a chain of 1-2 nested def / class scopes where one level holds one of 21 '
                  'binding statements for x (augmented assignment, bare and valued annotation, del, for, with, except, except*, imports, def, '
                  'class, walrus, tuple target, match captures, walrus in a comprehension) and the other level one of {nothing, x = .., global x}')
 def binding_forms_against_symtable(run):
